@@ -60,14 +60,15 @@ Definition judge_load
   let mc := load L kind true d in
   (* outside the modelled fragment of the modifier machinery the comparison is vacuous (and bit 4 is off) *)
   let agree := unmodelled ms || unmodelled mc || (out_eqb ms istrict && out_eqb mc icollect) in
-  let spec := c07_okb istrict icollect && feq in
+  (* feq (errors[0] == raised exception, by SigmaError.__eq__) is checked by the harness oracle, not here *)
+  let spec := c07_okb istrict icollect in
   bits agree spec (dom L kind d) (negb (out_eqb istrict (Ok []))).
 
 (* collections and text-level loading are not modelled: only the property is evaluated on the outcome
    (bit 1 is vacuous, bit 4 never set) *)
 Definition judge_prop (c : outcome (list N) * outcome (list N) * bool) : N :=
   let '(istrict, icollect, feq) := c in
-  bits true (c07_okb istrict icollect && feq) false (negb (out_eqb istrict (Ok []))).
+  bits true (c07_okb istrict icollect) false (negb (out_eqb istrict (Ok []))).
 
 (* typed constructors for the generated case terms *)
 Definition mkcase (kind : N) (facts : list (str * N)) (exts : list (str * option (list str))) (d : yv)
